@@ -20,6 +20,7 @@ import (
 	"fmt"
 	"os"
 	"strings"
+	"strconv"
 	"runtime/pprof"
 	"syscall"
 	"time"
@@ -37,6 +38,10 @@ const genesisTime = 1700000000
 type epOpts struct {
 	NoCSV    bool `json:"no_csv"`
 	NoSegWit bool `json:"no_segwit"`
+	// configuration the client chooses (pool.go, compr.go): chain.TrustedTxChecker installed (the harness plays the
+	// memory pool's verification cache), UTXO records kept in the compressed format (NewChanOpts.CompressUTXO)
+	Pool     bool `json:"pool,omitempty"`
+	Compress bool `json:"compress,omitempty"`
 }
 
 type replayDoc struct {
@@ -44,10 +49,12 @@ type replayDoc struct {
 	Opts      epOpts   `json:"opts"`
 	History   []string `json:"history"`   // accepted blocks (hex), in order, on top of the synthetic genesis
 	Candidate string   `json:"candidate"` // the block under test (hex)
+	Vouched   []string `json:"vouched,omitempty"` // txids chain.TrustedTxChecker answers true for (pool.go)
 	// side-branch scenario (reorg.go): T1..Td extend the last history block P one after the other; B1' is T1's
 	// sibling (parent P), B2' extends B1', …; the last side block gives the side branch more work than Td
 	MainBranch []string `json:"main_branch,omitempty"` // T1..Td
 	SideBranch []string `json:"side_branch,omitempty"` // B1'..B(d+1)'
+	Walk       []string `json:"walk,omitempty"`        // branch walk (walk.go): every block submitted after the history, in order
 	Real      string   `json:"real"`
 	Model     string   `json:"model"`
 	Ref       string   `json:"reference"`
@@ -60,7 +67,7 @@ type wcoin struct {
 }
 
 type episode struct {
-	r       *vlib.Run
+	r       *Run
 	o       *vlib.Oracle
 	g       *vlib.Rng
 	k       *chainkit.Kit
@@ -78,10 +85,15 @@ type episode struct {
 	idxOff  int      // nodes of the real block index the model has never seen (stored side-branch blocks, reorg.go)
 	nblocks int
 	special []*scoin // coins with height-gated scripts (reorg.go)
+	vouchNext map[[32]byte]bool // replay / dedicated kinds: what the pool vouches for in the next candidate (pool.go)
 }
 
-func newEpisode(r *vlib.Run, o *vlib.Oracle, g *vlib.Rng, opts epOpts) *episode {
-	k, err := chainkit.New(chainkit.Opts{GenesisTime: genesisTime, NoCSV: opts.NoCSV, NoSegWit: opts.NoSegWit, NoTaproot: opts.NoSegWit}, g)
+func newEpisode(r *Run, o *vlib.Oracle, g *vlib.Rng, opts epOpts) *episode {
+	var chOpts *chain.NewChanOpts
+	if opts.Compress {
+		chOpts = &chain.NewChanOpts{CompressUTXO: true} // selects SerializeC / NewUtxoRecOwnC / OneUtxoRecC for the whole package
+	}
+	k, err := chainkit.New(chainkit.Opts{GenesisTime: genesisTime, NoCSV: opts.NoCSV, NoSegWit: opts.NoSegWit, NoTaproot: opts.NoSegWit, ChainOpts: chOpts}, g)
 	if err != nil {
 		fmt.Fprintln(os.Stderr, "chainkit:", err)
 		os.Exit(3)
@@ -93,6 +105,11 @@ func newEpisode(r *vlib.Run, o *vlib.Oracle, g *vlib.Rng, opts epOpts) *episode 
 			k.Ch.Unspent.HashMap[i] = make(map[utxo.UtxoKeyType]*[]byte)
 		}
 	}
+	if k.Ch.Unspent.ComprssedUTXO != opts.Compress {
+		fmt.Fprintln(os.Stderr, "c04: the chain was not opened with the record format the episode asks for")
+		os.Exit(3)
+	}
+	installPool(opts.Pool) // pool.go: chain.TrustedTxChecker = the harness's pool (or nil)
 	gen, _ := k.Tip()
 	if rep := o.MustAsk("reset " + gen); rep != "ok" {
 		fmt.Fprintln(os.Stderr, "oracle reset:", rep)
@@ -131,6 +148,7 @@ func (e *episode) parseOn(raw []byte, parent *chain.BlockTreeNode, ref utxoMap) 
 	over := map[btc.TxPrevOut]*coin{}
 	gone := map[btc.TxPrevOut]bool{}
 	c.scriptOk = make([][]bool, len(c.txs))
+	c.found = make([][]bool, len(c.txs))
 	for ti, tx := range c.txs {
 		if ti > 0 {
 			oks := make([]bool, len(tx.TxIn))
@@ -152,13 +170,16 @@ func (e *episode) parseOn(raw []byte, parent *chain.BlockTreeNode, ref utxoMap) 
 					spent[j] = &btc.TxOut{}
 				}
 			}
+			fnd := make([]bool, len(tx.TxIn))
 			for j := range tx.TxIn {
 				if found[j] != nil {
+					fnd[j] = true
 					oks[j] = verify(tx, j, spent, flags)
 					gone[tx.TxIn[j].Input] = true
 				}
 			}
 			c.scriptOk[ti] = oks
+			c.found[ti] = fnd
 		}
 		for i, o := range tx.TxOut {
 			p := btc.TxPrevOut{Hash: tx.Hash.Hash, Vout: uint32(i)}
@@ -196,9 +217,10 @@ func (e *episode) judge(kind string, raw []byte, fullDump bool) *outcome {
 		return nil
 	}
 	doc := func(oc *outcome) replayDoc {
-		return replayDoc{Kind: kind, Opts: e.opts, History: append([]string{}, e.history...), Candidate: hex.EncodeToString(raw), Real: oc.real, Model: oc.model, Ref: oc.ref}
+		return replayDoc{Kind: kind, Opts: e.opts, History: append([]string{}, e.history...), Candidate: hex.EncodeToString(raw), Vouched: c.vouchedIDs(), Real: oc.real, Model: oc.model, Ref: oc.ref}
 	}
 	oc := &outcome{}
+	e.vouch(c) // pool.go: what chain.TrustedTxChecker will answer for the transactions of this candidate (nil: no hook)
 	tip0, h0 := e.k.Tip()
 	if e.inIndex(c.hash) {
 		// theorem refuse_unchanged asks for a hash that is not in the index yet (PreCheckBlock's "already in" test, C05)
@@ -229,6 +251,8 @@ func (e *episode) judge(kind string, raw []byte, fullDump bool) *outcome {
 	mok, sok := strings.HasPrefix(oc.model, "ok"), oc.spec == "ok"
 	// R
 	tA = time.Now()
+	setPool(c)
+	r.pending(pendingDoc{Kind: kind, Opts: e.opts, Candidate: hex.EncodeToString(raw), Vouched: c.vouchedIDs()})
 	res := e.k.Submit(raw)
 	if !res.OK() && gerr == "script" {
 		// a verdict about scripts must not depend on the schedule of commitTxs' verification goroutines (multi.go)
@@ -343,7 +367,7 @@ func (e *episode) judge(kind string, raw []byte, fullDump bool) *outcome {
 		e.ref.apply(gspent, gadded)
 	}
 	if oc.accepted {
-		e.history = append(e.history, hex.EncodeToString(raw))
+		e.pushHistory(hex.EncodeToString(raw))
 		if tip1 != hex.EncodeToString(c.hash) || h1 != c.height {
 			r.PropFail("accepted-tip-wrong", fmt.Sprintf("kind %q accepted but tip is %s/%d", kind, tip1, h1), doc(oc))
 			bad = true
@@ -382,6 +406,7 @@ func (e *episode) judge(kind string, raw []byte, fullDump bool) *outcome {
 	if oc.accepted && !e.dead {
 		e.track(c)
 	}
+	c.poolStats(r, kind, oc)
 	r.Sample(map[string]string{"kind": kind, "real": errClass(oc.real), "model": oc.model, "spec": oc.spec, "reference": oc.ref, "txs": fmt.Sprint(len(c.txs))})
 	return oc
 }
@@ -452,7 +477,11 @@ var stopProf = func() {}
 var tOracle, tReal time.Duration
 
 func main() {
-	r := vlib.NewRun("C04")
+	if d := os.Getenv("VERIF_C04_CHILD"); d != "" {
+		childMain(d) // child.go: one episode / replay on behalf of the parent harness
+		return
+	}
+	r := &Run{Run: vlib.NewRun("C04")}
 	if pf := os.Getenv("VERIF_C04_PROF"); pf != "" {
 		f, _ := os.Create(pf)
 		pprof.StartCPUProfile(f)
@@ -484,22 +513,22 @@ func main() {
 		"hash-prefix injectivity: no two different txids among the block's transactions and the records of the UTXO set share their first 8 bytes (a 2^32-work birthday collision on SHA-256d; UnspentDB.commit would file the new record over the old one — observed by keyClashProbe at the record layer, evidence field hash_prefix_injectivity_probe; Lean: connect_sound_needs_prefix_injectivity); only INPUTS naming a colliding txid are generated",
 		"reference semantics of Bitcoin written from memory of Bitcoin Core (DESIGN §3.7)",
 	}
-	if chain.TrustedTxChecker != nil || utxo.UTXO_PURGE_UNSPENDABLE {
-		fmt.Fprintln(os.Stderr, "c04: chain.TrustedTxChecker is set or utxo.UTXO_PURGE_UNSPENDABLE is true: the modelled configuration is not the one running")
+	if utxo.UTXO_PURGE_UNSPENDABLE {
+		fmt.Fprintln(os.Stderr, "c04: utxo.UTXO_PURGE_UNSPENDABLE is true: the modelled configuration is not the one running")
 		os.Exit(3)
 	}
 	if r.Replay != "" {
 		runReplay(r, o)
 	} else {
 		t0 := time.Now()
-		if only := os.Getenv("VERIF_C04_ONLY"); only != "episodes" && only != "reorg" {
+		if only := os.Getenv("VERIF_C04_ONLY"); only == "" || only == "direct" {
 			directStreams(r, o)
 			chkTxStream(r, o) // extra.go: Tx.CheckTransaction / Tx.IsFinal against the oracle ops chktx / final
 		}
 		keyClashProbe(r) // keyclash.go: records what UnspentDB.commit does on an 8-byte key clash (assumption, not a judge)
 		r.Extra["direct_streams_s"] = time.Since(t0).Seconds()
 		t0 = time.Now()
-		if only := os.Getenv("VERIF_C04_ONLY"); only != "direct" && only != "reorg" {
+		if only := os.Getenv("VERIF_C04_ONLY"); only == "" || only == "episodes" {
 			runEpisodes(r, o)
 		}
 		r.Extra["episodes_s"] = time.Since(t0).Seconds()
@@ -508,6 +537,11 @@ func main() {
 			runReorgEpisodes(r, o)
 		}
 		r.Extra["reorg_episodes_s"] = time.Since(t0).Seconds()
+		t0 = time.Now()
+		if only := os.Getenv("VERIF_C04_ONLY"); only == "" || only == "walk" {
+			runWalkEpisodes(r, o) // walk.go: multi-step histories with several re-organisations
+		}
+		r.Extra["walk_episodes_s"] = time.Since(t0).Seconds()
 		r.Extra["oracle_block_s"] = tOracle.Seconds()
 		r.Extra["real_submit_s"] = tReal.Seconds()
 	}
@@ -517,7 +551,22 @@ func main() {
 		"C04: Lean model of commitTxs/CheckTransaction/sigop counters/UnspentGet tied to the real Chain.CheckBlock+AcceptBlock by differential runs on chainkit chains; property predicate = independent sequential ConnectBlock (Go) cross-checked against the Lean spec")
 }
 
-func runReplay(r *vlib.Run, o *vlib.Oracle) {
+// runReplay: documents of episodes that run in a child process (child.go) are replayed in one.
+func runReplay(r *Run, o *vlib.Oracle) {
+	var w struct {
+		Replay replayDoc `json:"replay"`
+	}
+	if b, err := os.ReadFile(r.Replay); err == nil && json.Unmarshal(b, &w) == nil && w.Replay.Candidate != "" && w.Replay.Opts.Compress {
+		nv := r.Violations()
+		runChild(r, childSpec{Mode: "replay", Replay: r.Replay})
+		restoreStdout()
+		fmt.Printf("replay (child process): kind=%s new violations: %d\n", w.Replay.Kind, r.Violations()-nv)
+		return
+	}
+	runReplayHere(r, o)
+}
+
+func runReplayHere(r *Run, o *vlib.Oracle) {
 	b, err := os.ReadFile(r.Replay)
 	if err != nil {
 		fmt.Fprintln(os.Stderr, err)
@@ -532,15 +581,39 @@ func runReplay(r *vlib.Run, o *vlib.Oracle) {
 		chkTxStream(r, o)
 		runEpisodes(r, o)
 		runReorgEpisodes(r, o)
+		runWalkEpisodes(r, o)
 		return
 	}
 	e := newEpisode(r, o, r.Rng, w.Replay.Opts)
 	defer e.close()
 	for i, h := range w.Replay.History {
+		if strings.HasPrefix(h, "inject:") { // extra.go: a record of out-of-supply values filed directly
+			f := strings.Split(h, ":")
+			var id [32]byte
+			b, _ := hex.DecodeString(f[1])
+			copy(id[:], b)
+			var vals []uint64
+			for _, v := range strings.Split(f[2], ",") {
+				x, _ := strconv.ParseUint(v, 10, 64)
+				vals = append(vals, x)
+			}
+			e.injectAs(id, vals)
+			continue
+		}
 		raw, _ := hex.DecodeString(h)
+		e.vouchNext = map[[32]byte]bool{}
 		if oc := e.judge("replay-history", raw, i == len(w.Replay.History)-1); oc == nil || !oc.accepted {
 			fmt.Println("replay: history block", i, "not accepted:", oc)
 		}
+	}
+	if len(w.Replay.Walk) > 0 {
+		nv := r.Violations()
+		e.dead = true
+		e.replayWalk(w.Replay)
+		restoreStdout()
+		tip, h := e.k.Tip()
+		fmt.Printf("replay: kind=%s %d walk blocks, final tip %s/%d, new violations: %d\n", w.Replay.Kind, len(w.Replay.Walk), tip, h, r.Violations()-nv)
+		return
 	}
 	if len(w.Replay.SideBranch) > 0 {
 		e.dead = false
@@ -553,6 +626,7 @@ func runReplay(r *vlib.Run, o *vlib.Oracle) {
 	}
 	raw, _ := hex.DecodeString(w.Replay.Candidate)
 	e.dead = false
+	e.vouchNext = vouchSet(w.Replay.Vouched)
 	oc := e.judge(w.Replay.Kind, raw, true)
 	restoreStdout()
 	fmt.Printf("replay: kind=%s real=%q model=%s spec=%s reference=%s\n", w.Replay.Kind, oc.real, oc.model, oc.spec, oc.ref)
